@@ -67,7 +67,7 @@ RESERVED = {
 #   exclude_all_modules        an exclude pattern that removes every .py file of
 #                              the package (the sdist then no longer builds)
 RISKY = {
-    "git_ignored_unicode_name": 0.05,   # given: git project with '*.dat' ignored
+    "git_ignored_unicode_name": 0.25,   # given: git project with '*.dat' ignored (D36 is repaired: no longer a known failure)
     "readd_ignored_sdist_only": 0.10,   # given: an include re-adds an ignored file
     "exclude_all_modules": 0.04,        # given: a package project with excludes
 }
@@ -355,24 +355,32 @@ NONTRIVIAL = {
 }
 
 
-def gen_project(rng: random.Random) -> dict:
+def gen_project(rng: random.Random, focus: str | None = None) -> dict:
     """Draw specs until one is non-trivial (at least two of NONTRIVIAL); at most
-    four redraws, all from the same ``rng`` (so still deterministic)."""
-    spec = _gen_once(rng)
+    four redraws, all from the same ``rng`` (so still deterministic).
+    ``focus="git"``: a package project in a git work tree whose .gitignore hides
+    files inside the package, some with names git quotes in its listings."""
+    spec = _gen_once(rng, focus)
     for _ in range(4):
         if len(NONTRIVIAL & set(spec["features"])) >= 2:
             break
-        spec = _gen_once(rng)
+        spec = _gen_once(rng, focus)
     return spec
 
 
-def _gen_once(rng: random.Random) -> dict:
+# names `git ls-files` prints C-quoted unless asked for NUL-separated output
+QUOTED_NAMES = ["ïgnored.dat", "café.dat", 'say "hi".dat', "日本.dat", "back\\slash.dat"]
+
+
+def _gen_once(rng: random.Random, focus: str | None = None) -> dict:
     b = _B(rng)
     p = b.p
     feats = b.features
 
     style = rng.choice(["project", "project", "poetry"])
     kind = rng.choices(["package", "module", "stubs"], weights=[70, 15, 15])[0]
+    if focus == "git":
+        kind = "package"
     layout = rng.choice(["flat", "src"])
     feats.add(f"style_{style}")
     feats.add(f"kind_{kind}")
@@ -562,12 +570,12 @@ def _gen_once(rng: random.Random) -> dict:
         feats.add("exclude")
 
     # ---- git ---------------------------------------------------------------
-    git = p(0.35)
+    git = p(0.35) or focus == "git"
     gitignore = None
     if git:
         feats.add("git")
         lines = []
-        if p(0.85):
+        if p(0.85) or focus == "git":
             feats.add("gitignore")
             opts = ["*.dat", "*.log", "dist/", "__pycache__/", "*.py[cod]", "build/"]
             if pdir and kind == "package":
@@ -575,6 +583,8 @@ def _gen_once(rng: random.Random) -> dict:
             for o in rng.sample(opts, min(len(opts), rng.choice([1, 2, 3, 4]))):
                 if o not in lines:
                     lines.append(o)
+            if focus == "git" and "*.dat" not in lines:
+                lines.append("*.dat")
             if pdir and kind == "package":
                 if any("gen/" in ln for ln in lines):
                     b.add(f"{pdir}/gen/a.py")
@@ -588,8 +598,9 @@ def _gen_once(rng: random.Random) -> dict:
                         b.add(f"{pdir}/keep.dat")
                         lines.append("!keep.dat")
                         feats.add("gitignore_negation")
-                    if p(RISKY["git_ignored_unicode_name"]):
-                        b.add(f"{pdir}/ïgnored.dat")
+                    if p(RISKY["git_ignored_unicode_name"]) or (focus == "git" and p(0.7)):
+                        for nm in rng.sample(QUOTED_NAMES, rng.choice([1, 1, 2])):
+                            b.add(f"{pdir}/{nm}")
                         feats.add("git_ignored_unicode_name")
                 if "*.log" in lines:
                     pinfo["log"] = b.add(f"{pdir}/debug.log")
@@ -599,7 +610,7 @@ def _gen_once(rng: random.Random) -> dict:
             # explicit include that re-adds an ignored file
             readd = [x for x in [*(pinfo.get("dat") or []), pinfo.get("secret"),
                                  f"{pinfo['gen']}/b.dat" if pinfo.get("gen") else None] if x]
-            if readd and p(0.3):
+            if readd and (p(0.3) or (focus == "git" and p(0.5))):
                 # mostly for both formats; an sdist-only re-add of a file that
                 # sits inside the package makes wheel(sdist) != wheel(tree)
                 fmt = ["sdist"] if p(RISKY["readd_ignored_sdist_only"]) else both()
